@@ -605,7 +605,8 @@ class YP(object):
             return YPFail()
 
     def _match_all_clauses(self, clauses, args):
-        for clause in clauses:
+        # logical update view: enumerate the facts that exist when the goal starts
+        for clause in list(clauses):
             for cut in clause.match(args):
                 yield False
                 if cut:
